@@ -37,6 +37,7 @@ Proof.
     intros x Hx. destruct (R1 x Hx) as [A|[A|A]]; [now left| |now right; right].
     exfalso. destruct A as (lt' & p & r & A1 & A2 & _). assert (lt' = t) by congruence. subst. congruence.
   - intros r Hr. lia.
+  - intros p st r X. discriminate.
 Qed.
 
 (* ---- facts about the current call -------------------------------------------------------------------------------- *)
@@ -194,6 +195,7 @@ Proof.
         - unfold live_kid. rewrite Tt. cbn. apply andb_false_r.
         - intros t' X. unfold live_kid. now rewrite Told. }
       lia.
+  - rewrite Hk. discriminate.
 Qed.
 
 (* a child removes its SID from the registry and sends UNSUBSCRIBE *)
@@ -394,6 +396,7 @@ Proof.
   - (* count *) destruct (iv_count _ _ H) as [C1 C2]. split.
     + intros c Hc'. rewrite Hch in Hc'. replace (ntasks s') with (ntasks s) by (subst s'; sproj; lia). now apply C1.
     + intros _ X. exfalso. apply X. rewrite Hcur', T0. reflexivity.
+  - rewrite Hk. discriminate.
 Qed.
 
 (* async_subscribe_services returns normally and has created the renewal task *)
@@ -451,6 +454,8 @@ Proof.
     + intros r Hr. rewrite Br. apply (iv_svc _ _ H). lia.
   - intros lt Hlt p st r Hpc. assert (lt = 1) by (subst s'; unfold auto_state in Hlt; sproj in Hlt; congruence). subst lt.
     rewrite T1 in Hpc. discriminate.
+  - intros lt p st r Hlt Hpc. assert (lt = 1) by (subst s'; unfold auto_state in Hlt; sproj in Hlt; congruence). subst lt.
+    rewrite T1 in Hpc. discriminate.
   - intros G. split.
     + intros y Hy. left. subst s'. unfold auto_state in *. sproj in Hy. sproj. unfold dkeys in *. now rewrite Bfst.
     + intros lt p r Hlt Hpc. assert (lt = 1) by (subst s'; unfold auto_state in Hlt; sproj in Hlt; congruence). subst lt.
@@ -478,7 +483,7 @@ Lemma cancel_spec s lt :
   (forall r, reqs s' r = reqs s r \/
              (awaits (pcof s lt) r /\ q_state (reqs s r) = QPending /\ q_state (reqs s' r) = QCancelled /\
               q_task (reqs s' r) = q_task (reqs s r) /\ q_svc (reqs s' r) = q_svc (reqs s r) /\
-              q_bg (reqs s' r) = q_bg (reqs s r))) /\
+              q_bg (reqs s' r) = q_bg (reqs s r) /\ q_kind (reqs s' r) = q_kind (reqs s r))) /\
   (forall r, awaits (pcof s lt) r -> q_state (reqs s r) = QPending -> q_state (reqs s' r) = QCancelled).
 Proof.
   intros Hnd Hpc Hk. cbv zeta. unfold cancel. unfold pc_ok in Hpc. rewrite Hk in Hpc.
@@ -592,20 +597,24 @@ Proof.
   - (* reqo *) intros t' Ht' r Hr. rewrite F2 in Ht'. rewrite F8. destruct (Nat.eq_dec t' t) as [->|X]; [rewrite Tt in Hr; destruct Hr|].
     destruct (Nat.eq_dec t' lt) as [->|Y].
     + rewrite Tl in Hr. cbn [t_pc] in Hr. assert (A : awaits (pcof s lt) r) by (destruct C16 as [E|(w & E1 & E2)]; [now rewrite <- E|rewrite E2 in Hr; destruct Hr]).
-      destruct (C18 r) as [E|(_ & _ & _ & E & _ & _)]; rewrite E; now apply (iv_reqo _ _ H lt Hlt).
+      destruct (C18 r) as [E|(_ & _ & _ & E & _ & _ & _)]; rewrite E; now apply (iv_reqo _ _ H lt Hlt).
     + rewrite Told in Hr by assumption. rewrite (Rother t' r Ht' Y Hr). now apply (iv_reqo _ _ H t' Ht').
   - (* bg *) intros r Hr. rewrite F4 in Hr. rewrite F8, F2. destruct (iv_bg _ _ H r Hr) as [A B].
-    destruct (C18 r) as [E|(_ & _ & _ & E1 & _ & E2)].
+    destruct (C18 r) as [E|(_ & _ & _ & E1 & _ & E2 & _)].
     + rewrite E. split; [|exact B]. rewrite A. unfold is_loop. now rewrite Kind.
     + rewrite E1, E2. split; [|exact B]. rewrite A. unfold is_loop. now rewrite Kind.
   - (* sid *) rewrite F5, F6. repeat split; [constructor|exact S2|intros y []].
   - (* svc *) rewrite F3, F6, F4, F8. split; [exact V1|]. intros r Hr.
-    destruct (C18 r) as [E|(_ & _ & _ & _ & E & _)]; rewrite E; now apply V2.
+    destruct (C18 r) as [E|(_ & _ & _ & _ & E & _ & _)]; rewrite E; now apply V2.
   - (* pass *) intros lt' Hlt'. rewrite F7 in Hlt'. injection Hlt' as <-. intros p st r Hq.
     rewrite Tl in Hq. cbn [t_pc] in Hq.
     assert (Hq0 : pcof s lt = PPass p st r) by (destruct C16 as [E|(w & E1 & E2)]; [now rewrite <- E|congruence]).
     destruct (iv_pass _ _ H lt Hrt p st r Hq0) as (P1 & P2 & P3 & P4 & P5 & P6 & P7).
     rewrite F5, F6, F3. repeat split; auto. intros ND. now destruct (ND Dl).
+  - (* preq *) intros lt' p st r Hlt' Hq. rewrite F7 in Hlt'. injection Hlt' as <-. rewrite Tl in Hq. cbn [t_pc] in Hq.
+    assert (Hq0 : pcof s lt = PPass p st r) by (destruct C16 as [E|(w & E1 & E2)]; [now rewrite <- E|congruence]).
+    destruct (iv_preq _ _ H lt p st r Hrt Hq0) as [A B]. rewrite F8.
+    destruct (C18 r) as [E|(_ & _ & _ & _ & E1 & _ & E2)]; [now rewrite E|now rewrite E1, E2].
   - (* route *) intros G. assert (G' : g_inflight s = false /\ in_do_resubscribe (tasks s lt) = false).
     { subst s'. sproj in G. rewrite C9 in G. now apply orb_false_iff in G. }
     destruct G' as [G1 G2]. destruct (iv_route _ _ H G1) as [R1 R2]. rewrite F5, F6. split.
